@@ -375,6 +375,8 @@ def run(cx, rep):
     all_of_merge_rule(cx, rep, "C08.5")
     rep.rule("C08.10", "an intersection folded into one object keeps no index signature (declared keys would escape it)")
     merged_object_closed_rule(cx, rep, "C08.10")
+    rep.rule("C08.11", "the body of a named declaration is read in its own scope (not in the scope of the place that first refers to it)")
+    declaration_scope_rule(cx, rep, "C08.11")
     rep.rule("C08.7", "the dispatch table and the schema table of a discriminated union are built alike")
     sibling_tables_rule(cx, rep, "C08.7")
     rep.rule("C08.8", "renaming, introducing or inlining a generic wrapper does not change what a type parameter means (scope stacks are searched innermost-first; = C01.8)")
@@ -496,3 +498,79 @@ def merged_object_closed_rule(cx, rep, rid):
                "the intersection constructor builds a merged object whose index signature is not `None`: the runtime applies an index signature to the undeclared keys only, so `{name: T} & Record<string, V>` written inline stops requiring `name: V` while the same intersection through aliases still does",
                "%s:%s" % (ao[0].file, x["line"]))
     rep.floor(rid, "objects built by the intersection constructor", n, 1)
+
+
+def declaration_scope_rule(cx, rep, rid):
+    """Type parameters (and mapped-type variables) are kept on ONE stack of the frontend context and looked up by name.
+    The body of a NAMED declaration must be read with none of the names of the place that refers to it in scope:
+    `type T = number; type Inner = { v: T }; type Wrap<T> = { inner: Inner; w: T }` - reached through `Wrap<string>`
+    first, `Inner` was memoised as `{ v: string }` (and so for every later use).  Decided: the function that memoises
+    named types (it inserts the in-progress marker into the table of named validators) reaches the extraction of the
+    declaration (the functions that PUSH onto the scope stack) only through code that first takes the stack away
+    (`mem::take` / `mem::replace`) and puts it back afterwards."""
+    F = cx.rs
+    from facts import walk as hwalk
+    # the scope stack: a field of the frontend context holding (name, Runtype) pairs that is pushed to
+    stack_fields = set()
+    pushers = set()
+    for g, t in F.hir.items():
+        f = F.fns.get(g)
+        if f is None or "/src/frontend/" not in (f.file or ""):
+            continue
+        for x in hwalk(t["body"]):
+            if x["k"] == "MethodCall" and x["method"] == "push" and x["recv"]["k"] == "Field" and re.search(r"Vec<\(std::string::String, ast::runtype::Runtype\)>", x["recv"].get("ty") or ""):
+                stack_fields.add(x["recv"]["name"])
+                pushers.add(g.split("::{closure")[0])
+    if len(stack_fields) != 1:
+        rep.anchor_missing(rid, "the scope stack of the frontend (a Vec<(String, Runtype)> field that is pushed to); found %s" % sorted(stack_fields))
+        return
+    sf = next(iter(stack_fields))
+
+    def resets(g):
+        """the function takes the stack away and assigns it back"""
+        t = F.hir.get(g)
+        if t is None:
+            return False
+        took = any(x["k"] == "Call" and (x.get("callee") or "") in ("std::mem::take", "std::mem::replace", "core::mem::take", "core::mem::replace")
+                   and any(y["k"] == "Field" and y["name"] == sf for y in hwalk(x)) for x in hwalk(t["body"]))
+        back = any(x["k"] == "Assign" and x.get("l", {}).get("k") == "Field" and x["l"]["name"] == sf for x in hwalk(t["body"]))
+        return took and back
+
+    def reaches_push(g, depth=0, seen=None):
+        seen = seen or set()
+        if g in pushers:
+            return True
+        if depth >= 5 or g in seen or g not in F.hir:
+            return False
+        seen.add(g)
+        f = F.fns[g]
+        for x in hwalk(F.hir[g]["body"]):
+            if x["k"] in ("Call", "MethodCall"):
+                tg = F._callee_gid(f.crate, (x.get("resolved") or x.get("callee") or ""))
+                if tg in F.hir and reaches_push(tg, depth + 1, seen):
+                    return True
+        return False
+    # the memoising function: inserts a `None` marker into a map field keyed by the named-type id
+    n = 0
+    for g, t in sorted(F.hir.items()):
+        f = F.fns.get(g)
+        if f is None or f.kind == "Closure" or "/src/frontend/" not in (f.file or ""):
+            continue
+        marks = [x for x in hwalk(t["body"]) if x["k"] == "MethodCall" and x["method"] == "insert" and x["recv"]["k"] == "Field" and len(x["args"]) == 2
+                 and x["args"][1]["k"] == "Path" and (x["args"][1].get("def") or "").endswith("::None") and "RuntypeUUID" in (x["recv"].get("ty") or "")]
+        if not marks:
+            continue
+        for x in hwalk(t["body"]):
+            if x["k"] not in ("Call", "MethodCall"):
+                continue
+            tg = F._callee_gid(f.crate, (x.get("resolved") or x.get("callee") or ""))
+            if tg not in F.hir or tg == g or "Runtype" not in (F.fns[tg].output or ""):
+                continue
+            if not reaches_push(tg) and not (resets(tg) and any(reaches_push(F._callee_gid(f.crate, (y.get("resolved") or y.get("callee") or ""))) for y in hwalk(F.hir[tg]["body"]) if y["k"] in ("Call", "MethodCall"))):
+                continue
+            n += 1
+            ok = resets(g) or resets(tg)
+            rep.ob(rid, "%s/%s#%d" % (g.rsplit("::", 1)[-1], tg.rsplit("::", 1)[-1], n - 1), ok,
+                   "%s memoises named types and extracts the declaration through %s with the scope stack `%s` of the referring place still in force: a name inside the declaration that equals a type parameter (or mapped-type variable) of the place it is first reached from is captured, and the wrong body is memoised for every later use" % (g, tg, sf),
+                   "%s:%s" % (f.file, x["line"]), sample={"memo_fn": g, "extractor": tg, "stack": sf})
+    rep.floor(rid, "extractions of a named declaration from the memoising function", n, 1)
